@@ -241,6 +241,22 @@ func (r *Runner) checkProperty(spec *PropSpec) int {
 	}
 	sort.Strings(assumedFacts)
 	trustedClauses = append(trustedClauses, assumedFacts...)
+	// axioms in scope of the verified functions: global ones always, "local." ones for functions of their package
+	pkgsSeen := map[string]bool{}
+	for _, fc := range res.ctxs {
+		if fc.pkg != nil {
+			pkgsSeen[fc.pkg.PkgPath] = true
+		}
+	}
+	for _, a := range r.w.Axioms {
+		if strings.HasPrefix(a.Name, "local.") && (a.Pkg == nil || !pkgsSeen[a.Pkg.PkgPath]) {
+			continue
+		}
+		if strings.HasPrefix(a.Name, "local.env.") {
+			continue // the generated definitions of the environment source (C17), summarised in the property's notes
+		}
+		trustedClauses = append(trustedClauses, "axiom "+a.Name+" (a definition or an assumed fact, part of every query in its scope): "+strings.TrimSpace(a.Text[strings.Index(a.Text, ":")+1:]))
+	}
 	kinds := map[string]interface{}{}
 	for k, c := range byKind {
 		kinds[k] = map[string]int{"obligations": c[0], "discharged": c[1]}
